@@ -115,9 +115,29 @@ def run_present_case(case: dict) -> dict:
             pv = regroup()
         finally:
             shutil.rmtree(gbj_dir, ignore_errors=True)
+    elif variant.startswith("padded:"):
+        # the same SET of job graphs as a long stream: one job (preferably one carrying
+        # evidence no other job carries) occurs once, at a chosen position, the others are
+        # repeated under fresh ids around it - any internal chunking of the job stream must
+        # not lose a job at a chunk boundary
+        pos = int(variant.split(":")[1])
+        total = max(pos + 12, 140)
+        full = puml.evidence_model(jobs)
+        uniq = [i for i in range(len(jobs))
+                if puml.evidence_model(jobs[:i] + jobs[i + 1:]) != full]
+        u = rng.choice(uniq) if uniq else rng.randrange(len(jobs))
+        others = [j for i, j in enumerate(jobs) if i != u] or [jobs[u]]
+        pv = []
+        for k in range(total):
+            job = jobs[u] if k == pos else others[k % len(others)]
+            pv.append(puml.job_to_pv(job, f"pad-{k}", name, None, 10 * k))
+        out_extra = {"padded_unique_job": bool(uniq), "padded_jobs": total}
     else:
         pv = gen.present(jobs, rng, name, variant)
-    out: dict[str, Any] = {"status": "ok", "group": case["group"], "variant": case["variant"]}
+    out: dict[str, Any] = {"status": "ok", "group": case["group"], "variant": case["variant"],
+                           "uuid_seed": case.get("uuid_seed"), "rng_seed": case.get("rng_seed")}
+    if variant.startswith("padded:"):
+        out.update(out_extra)
     try:
         fp = _norm_fp(ingest_only([list(j) for j in pv]))
         out["ingest_ok"] = True
